@@ -675,6 +675,76 @@ def r06j(run, A: FuncInfo, B: FuncInfo):
 NORMALISERS = ("lower", "casefold", "upper")
 
 
+def _excluded_fate(f: FuncInfo) -> List[Tuple[str, object, str]]:
+    """what happens to an input key that names a field the caller excluded (a parameter already supplied by position).
+    Returns (fate, statement, where) per exclusion test: 'extra' when the key reaches the extra-key handling
+    (parse_addition), 'dropped' when it is consumed without it."""
+    fa = analysis(f)
+    if len(f.params) < 5:
+        raise AnalysisError(f"R06k: {f.qualname} has no excluded-keys parameter")
+    excl = f.params[4]
+    out = []
+    # the consumed-key filter of a separate extra-key pass (if the strategy has one)
+    filt = set()
+    for n, c in fa.all_calls():
+        if call_attr(c) == "parse_addition":
+            for a, p in fa.facts.atoms_at(n):
+                if isinstance(a, ast.Compare) and isinstance(a.ops[0], ast.In) and not p and isinstance(a.comparators[0], ast.Name):
+                    filt.add(a.comparators[0].id)
+    marks = [n for n in fa.cfg.nodes if n.kind == "stmt" and any(
+        isinstance(c.func, ast.Attribute) and unparse(c.func.value) in filt and c.func.attr in ("update", "add")
+        for c in fa.calls_at(n))]
+    adds = [n for n, c in fa.all_calls() if call_attr(c) == "parse_addition"]
+    for b in fa.cfg.nodes:
+        if b.kind != "branch" or b.is_for or b.test is None:
+            continue
+        hit = False
+        from ..cfg import decompose
+        for a, p in decompose(b.test, b.polarity):
+            if p and isinstance(a, ast.Compare) and len(a.ops) == 1 and isinstance(a.ops[0], ast.In) \
+                    and excl in names_in(a.comparators[0]):
+                hit = True
+        if not hit:
+            continue
+        loops = [m for m in sorted(fa.cfg.dominators()[b], key=lambda x: x.id) if m.kind == "branch" and m.is_for and m.polarity]
+        if not loops:
+            continue
+        loop = loops[-1]
+        head = loop.pred[0][0]
+        it = unparse(loop.stmt.iter)
+        region = fa.cfg.reach_from_succ(b, kinds=(N,), avoid=[head])
+        if "self.fields" in it or ".fields" in it:
+            # per-field pass: the key stays unconsumed (and is seen by the extra-key pass) unless it is marked
+            if not filt:
+                continue            # second pass of the per-key strategy: decides defaults, not the fate of a key
+            fate = "dropped" if any(m in region for m in marks) else "extra"
+            out.append((fate, b.stmt, f"per-field pass of {f.name}"))
+        else:
+            fate = "extra" if any(m in region for m in adds) else "dropped"
+            out.append((fate, b.stmt, f"per-key pass of {f.name}"))
+    return out
+
+
+def r06k(run, A: FuncInfo, B: FuncInfo):
+    """a keyword that names a parameter already supplied by position has the same fate in both strategies"""
+    fa_, fb_ = _excluded_fate(A), _excluded_fate(B)
+    run.floor("R06k", "exclusion tests deciding the fate of an input key", len(fa_) + len(fb_), 2)
+    fates_a = sorted({x[0] for x in fa_})
+    fates_b = sorted({x[0] for x in fb_})
+    same = fates_a == fates_b and len(fates_a) == 1
+    where = (fa_ + fb_)
+    drop = [x for x in where if x[0] == "dropped"] or where
+    run.check("R06k", (A if any(x[0] == "dropped" for x in fa_) else B),
+              "a key naming an excluded (positionally supplied) field has the same fate in both strategies", same,
+              construct="fate of a key naming an excluded field differs",
+              message=f"{A.name}: {fates_a} ({'; '.join(x[2] for x in fa_)})  vs  {B.name}: {fates_b} "
+                      f"({'; '.join(x[2] for x in fb_)}): one strategy hands the key to the extra-key handling, the other "
+                      f"silently consumes it",
+              necessity="def f(a: int, /, **rest) called f(1, a=5): rest == {'a': 5} with one strategy and {} with the "
+                        "other; with addition=False one raises ExceedError and the other succeeds",
+              node=drop[0][1] if drop else None)
+
+
 def r06e(run):
     sites = [("utype.parser.field", "ParserField.setup"), ("utype.parser.base", "BaseParser._get_field_from"),
              ("utype.parser.base", "BaseParser.get_attname"), ("utype.parser.base", "BaseParser.field_first_parse"),
@@ -698,7 +768,7 @@ def r06e(run):
 
 
 def check(run):
-    run.rules_run += ["R06a", "R06b", "R06c", "R06d", "R06e", "R06f", "R06g", "R06h", "R06i", "R06j"]
+    run.rules_run += ["R06a", "R06b", "R06c", "R06d", "R06e", "R06f", "R06g", "R06h", "R06i", "R06j", "R06k"]
     run.explain("C06: the two lookup strategies are discovered as the callees of the strategy conditional in "
                 "parse_data. (R06a) for each action (raise AbsenceError / AliasConflictError / DependenciesAbsenceError, "
                 "parse a field, store parsed, store default for a missing / a no-input field, store an extra key, collect "
@@ -717,4 +787,5 @@ def check(run):
     run.rule(r06h, run)
     run.rule(r06i, run, A, B)
     run.rule(r06j, run, A, B)
+    run.rule(r06k, run, A, B)
     run.rule(r06e, run)
